@@ -2,8 +2,9 @@
 """Normalise and compare re-rendered corpus files with the vetted references; merge counts into evidence/C09.json."""
 import json, os, re, sys, time
 
-root, outdir, rc, logf, tier, seed, start = sys.argv[1], sys.argv[2], int(sys.argv[3]), sys.argv[4], sys.argv[5], int(sys.argv[6]), float(sys.argv[7])
-refdir = os.path.join(root, "corpus", "format")
+root, vroot, outdir, rc, logf, tier, seed, start = sys.argv[1], sys.argv[2], sys.argv[3], int(sys.argv[4]), sys.argv[5], sys.argv[6], int(sys.argv[7]), float(sys.argv[8])
+# root = where evidence/ and replay/ go; vroot = /verif (reference renderings)
+refdir = os.path.join(vroot, "corpus", "format")
 
 CLOSURE = re.compile(r"fmttests\.(glob\.\.\.funcNN\.\.\.|init\.func\d+(\.\d+)*|glob\.\.func\d+(\.\d+)*)")
 
